@@ -345,6 +345,28 @@ func (p *Prog) RepoReachable(roots ...*ssa.Function) []*ssa.Function {
 	return out
 }
 
+// Representatives keeps one function per FnKey: generic functions are reachable only as
+// instances (20 per generic in cmd/vers); the first instance in sorted order stands for
+// the generic body so that each construct yields one obligation.
+func (p *Prog) Representatives(fns []*ssa.Function) []*ssa.Function {
+	seen := map[string]bool{}
+	var out []*ssa.Function
+	for _, f := range fns {
+		k := p.FnKey(f)
+		if f.Origin() == nil && f.Parent() == nil {
+			out = append(out, f)
+			seen[k] = true
+			continue
+		}
+		if seen[k] {
+			continue
+		}
+		seen[k] = true
+		out = append(out, f)
+	}
+	return out
+}
+
 // LibraryRoots are the public operations of all ecosystems plus vers.Contains.
 func (p *Prog) LibraryRoots() []*ssa.Function {
 	var r []*ssa.Function
